@@ -9,6 +9,7 @@ import FordModel.DocConvert
 import FordModel.Basic.Split
 import FordModel.Dispatch.C02
 import FordModel.IncludeMarks
+import FordModel.Summary
 namespace Ford
 open Proto
 
@@ -129,6 +130,22 @@ def dispatchC03 : List Str → Option (List Str)
         some ("ok".toList :: (convIdx Gen.markdownSkipAttrs reg).map showNat
               ++ ["P".toList] ++ (idxWhere (fun e => e.doc.isSome) 0 reg).map showNat
               ++ ["R".toList] ++ (idxWhere (fun e => e.md.isEmpty) 0 out).map showNat)
+      | _ => some ["bad-request".toList]
+    else if cmd == "c03.summary".toList then
+      -- c03.summary <f> <doc> <U<url> | -> <S<converted summary metadata> | ->  (f = 'p': the variant with
+      -- fixes/C03-summary-without-paragraph.diff)
+      match args with
+      | [v, doc, u, ms] =>
+        let url := match u with | 'U' :: r => some r | _ => none
+        let m := match ms with | 'S' :: r => some r | _ => none
+        some ["ok".toList, summaryOfV (v.contains 'p') doc m url]
+      | _ => some ["bad-request".toList]
+    else if cmd == "c03.para".toList then
+      match args with
+      | [doc] =>
+        match paraCapture doc with
+        | some (a, b, c) => some ["ok".toList, a, b, c]
+        | none => some ["none".toList]
       | _ => some ["bad-request".toList]
     else if cmd == "c03.classify".toList then
       match args with
